@@ -20,14 +20,26 @@ RULE = (
     "slugs, ro_slug, ro_id, message_id, script) on the in-memory object and on the object read back; ro.xml and the re-parsed tree are canon-equal (text, tails, attributes); the "
     "root has exactly one roCreate child and at most one mosromgrmeta child; message_id equals the "
     "roCreate's original one and ro_id the original one (messages are addressed to this running "
-    "order); bytes round trip (utf-8) gives the same.  Non-trivial = the state is the result of >= 1 "
+    "order); the <mos> attributes and header elements are the roCreate document's own; bytes round trip (utf-8) gives the same.  Non-trivial = the state is the result of >= 1 "
     "effective merge and holds non-ASCII or markup-significant text.")
 ASSUMPTIONS = ['text is XML-1.0-legal without CR (a literal CR is normalised by every XML parser)']
 MANDATORY = ['after:RunningOrderReplace', 'after:MetaDataReplace', 'after:StorySend',
              'after:RunningOrderEnd', 'special-chars', 'depth>=5']
 
 
-def check_state(ro, orig_mid, orig_ro_id, where):
+def _envelope(root):
+    """The envelope apart from the body and the completion record; the message ID as a number."""
+    def mid(c):
+        try:
+            return int(c.text)
+        except (TypeError, ValueError):
+            return c.text
+    return (tuple(sorted(root.attrib.items())),
+            tuple((c.tag, mid(c)) if c.tag == 'messageID' else canon(c)
+                  for c in root if c.tag not in ('roCreate', 'mosromgrmeta')))
+
+
+def check_state(ro, orig_mid, orig_ro_id, where, orig_env=None):
     fails = []
 
     def fail(mode, detail, exp=None, got=None):
@@ -69,6 +81,9 @@ def check_state(ro, orig_mid, orig_ro_id, where):
         fail('roCreate-count', f'{n_rc} roCreate children of the root', 1, n_rc)
     if n_meta > 1:
         fail('completion-record-count', f'{n_meta} mosromgrmeta children', '<=1', n_meta)
+    if orig_env is not None and _envelope(root) != orig_env:
+        fail('envelope-not-the-original', 'attributes of <mos> / header elements differ from the '
+             "roCreate document's", orig_env, _envelope(root))
     try:
         if ro.message_id != orig_mid:
             fail('message-id-changed', f'message_id {ro.message_id} != original {orig_mid}', orig_mid, ro.message_id)
@@ -107,7 +122,7 @@ def judge(ev):
     first = hist[0] if hist else ev.case['ro_xml']
     r0 = ET.fromstring(first)
     return check_state(ev.obs.ro, int(r0.find('messageID').text), r0.find('roCreate').find('roID').text,
-                       ev.obs.cls_name or 'unknown')
+                       ev.obs.cls_name or 'unknown', orig_env=_envelope(r0))
 
 
 def record(col, ev):
